@@ -9,6 +9,8 @@ generic over core arithmetic classes (Add/Sub/Mul/Div/Neg/NatCast).  Translated 
   eigenValues3dImpl        p1, its threshold, q (the trace/3 loop), p2, p, the B scaling factor, r, phi, the three
                            eigenvalue formulas
   3x3 eigenValuesVectorsImpl   the threshold of the diagonal special case
+  DenseMatrix::determinant (densematrix.hh)   the rows()==3 block (used for B.determinant()): temporaries and the
+                           return expression in source order
 
 Anything outside the small expression grammar ( + - * / unary minus, parentheses, literals, the named variables,
 sqrt/acos/cos calls, numeric_limits<..>::epsilon(), matrix.infinity_norm(), real_type(c)/K(c) casts ) raises
@@ -352,6 +354,26 @@ def translate(repo):
         raise TranslateError("3x3: offDiagNorm entries changed")
     t_v = one(r"if\s*\(\s*offDiagNorm\s*<=\s*(.+?)\)\s*\{", v3, "3x3 eigenvector diagonal threshold")
     emit("ev3_vecThreshold", ["eps"], "K", tr(t_v, ["eps"]), "if (offDiagNorm <= %s)" % t_v.strip())
+
+    # ---- DenseMatrix::determinant, rows()==3 (densematrix.hh): B.determinant() in eigenValues3dImpl --------
+    dm = strip_comments(open(os.path.join(repo, "dune/common/densematrix.hh")).read())
+    dbody = body_after(dm, r"DenseMatrix\s*<\s*MAT\s*>\s*::\s*determinant\s*\([^)]*\)\s*const\s*\{", "DenseMatrix::determinant")
+    blk = body_after(dbody, r"if\s*\(\s*rows\(\)\s*==\s*3\s*\)\s*\{", "determinant rows()==3 block")
+    blk = blk.replace("(*this)", "m")
+    temps = re.findall(r"field_type\s+(t[0-9]+)\s*=\s*([^;]+);", blk)
+    ret3 = one(r"return\s*\(?([^;]+?)\)?\s*;", blk, "determinant 3x3 return")
+    rest = re.sub(r"field_type\s+t[0-9]+\s*=\s*[^;]+;", "", blk)
+    rest = re.sub(r"return\s*[^;]+;", "", rest)
+    if rest.strip():
+        raise TranslateError("determinant 3x3: unexpected statements %r" % rest.strip()[:80])
+    names = []
+    lets = []
+    for (nm, ex) in temps:
+        lets.append("let %s : K := %s" % (nm, tr(ex, M3 + names)))
+        names.append(nm)
+    out.append("/-- `DenseMatrix::determinant()` for rows()==3: `%s` -/" % norm_ws(ret3).replace("`", "'"))
+    out.append("def det3 (m00 m01 m02 m10 m11 m12 m20 m21 m22 : K) : K :=\n  %s\n  %s\n"
+               % ("\n  ".join(lets), tr(ret3, M3 + names)))
 
     out.append("end")
     out.append("end DV.C08.Gen")
